@@ -47,13 +47,16 @@ pub enum OpKind {
     /// OUTPUT's shape and rely on the engine to sum them down to the operand's shape
     CBAdd,
     CBMul,
+    /// the closures of `corgi::cost` called like an operation: operands (output, target)
+    CostMse,
+    CostCe,
 }
 
 impl OpKind {
     pub fn arity(&self) -> usize {
         use OpKind::*;
         match self {
-            Add | Sub | Mul | Div | Axpy(_) | Conv { .. } | CAdd | CMul | CBAdd | CBMul => 2,
+            Add | Sub | Mul | Div | Axpy(_) | Conv { .. } | CAdd | CMul | CBAdd | CBMul | CostMse | CostCe => 2,
             Matmul { has_c, .. } => {
                 if *has_c {
                     3
@@ -98,6 +101,8 @@ impl OpKind {
             CFused3 => "custom_fused3",
             CBAdd => "custom_broadcast_add",
             CBMul => "custom_broadcast_mul",
+            CostMse => "cost::mse",
+            CostCe => "cost::cross_entropy",
         }
     }
     /// operations that are exact on small integer / dyadic data whatever the summation order
@@ -112,7 +117,7 @@ impl OpKind {
     }
     pub fn is_nonlinear(&self) -> bool {
         use OpKind::*;
-        matches!(self, Mul | Div | Powf(_) | Ln | Exp | Recip | Matmul { .. } | Conv { .. } | Relu | Sigmoid | Softmax | ActRelu | ActSigmoid | ActSoftmax | CMul | CFused3 | CBMul)
+        matches!(self, Mul | Div | Powf(_) | Ln | Exp | Recip | Matmul { .. } | Conv { .. } | Relu | Sigmoid | Softmax | ActRelu | ActSigmoid | ActSoftmax | CMul | CFused3 | CBMul | CostMse | CostCe)
     }
     /// operations that take their (single) operand by value
     pub fn consumes_operand(&self) -> bool {
